@@ -709,7 +709,9 @@ def parseRSubscriptList (σ : SpanTab) : Nat → List Tok → PR RExpr
   | 0, _ => none
   | f + 1, ts =>
     match parseRSubscript σ f ts with
-    | some (s1, .op .rsqb :: r) => some (s1, r)
+    -- a single starred index is the tuple of one element, ranged `location..end_location` = the starred's own extent
+    | some (s1, .op .rsqb :: r) =>
+      if isStarredR s1 then some (.tuple (L σ ts, R σ (.op .rsqb :: r)) [s1], r) else some (s1, r)
     | some (s1, .op .comma :: .op .rsqb :: r) => some (.tuple (L σ ts, R σ (.op .rsqb :: r)) [s1], r)
     | some (s1, .op .comma :: r) =>
       (match parseRSubscripts σ f r with
